@@ -250,7 +250,12 @@ func (j *jsonReader) getMap() map[string]any {
 	if j.current != nil {
 		return j.current
 	}
-	j.current = j.value[0].(map[string]any)
+	// A TTLV item must be a JSON object. Anything else yields an empty map: it has no tag,
+	// so every getter rejects it with an encoding error.
+	j.current, _ = j.value[0].(map[string]any)
+	if j.current == nil {
+		j.current = map[string]any{}
+	}
 	return j.current
 }
 
